@@ -170,7 +170,8 @@ def examine(case):
 def run_sub(lines, seed):
     code = "import sys\nsys.path.insert(0, %r)\nsys.path.insert(0, %r)\nfrom harness.ns import *\n" % (common.REPO, common.VERIF) + "\n".join(lines)
     env = dict(os.environ, PYTHONHASHSEED=str(seed), PYTHONDONTWRITEBYTECODE="1")
-    p = subprocess.run([sys.executable, "-c", code], stdout=subprocess.PIPE, stderr=subprocess.PIPE, text=True, env=env, timeout=300)
+    # the script goes in on stdin: hundreds of construction scripts exceed the length limit of one argv entry
+    p = subprocess.run([sys.executable, "-"], input=code, stdout=subprocess.PIPE, stderr=subprocess.PIPE, text=True, env=env, timeout=900)
     if p.returncode != 0:
         raise common.HarnessError("hash-seed subprocess failed: %s" % p.stderr[-500:])
     return p.stdout
